@@ -5,7 +5,9 @@ property (psf, strehl_ratio(), mtf, max_freq, the x-data handed to matplotlib by
 GeometricMTF.mtf / .freq / .diff_limited_mtf) is compared with vkit/oracles/dft.py:
 
 * the complex pupil is rebuilt from a *separately computed* Wavefront with the same sampling
-  (N x N grid on [-1,1]^2 masked to x^2+y^2 <= 1, amplitude sqrt(intensity), phase exp(+i 2 pi W)),
+  (N x N grid on [-1,1]^2 masked to x^2+y^2 <= 1, phase exp(+i 2 pi W); amplitude sqrt(intensity) or,
+  equally accepted because the statement does not say, the library's documented intensity/mean --
+  the two differ only with absorbing glasses, and the evidence records which one fitted),
   zero-extended to grid x grid and transformed by an explicit matrix DFT (cross-checked against
   numpy.fft with a different placement of the pupil); normalisation 100 / peak of the PSF of the
   same amplitude with zero phase;
@@ -66,7 +68,7 @@ RULE = ('per case one lens and one (pupil sampling N, grid) pair; every listed (
         'perfect systems. Non-trivial: >= 100 pupil samples in the mask and (>= 2 powered interfaces or a perfect '
         'system); distinct = distinct case hash')
 TIERS = {'quick': dict(shards=12, cases=24, budget_s=55), 'thorough': dict(shards=16, cases=150, budget_s=460)}
-MIN_NONTRIVIAL = {'quick': 60, 'thorough': 1200}
+MIN_NONTRIVIAL = {'quick': 60, 'thorough': 800}
 MIN_EVALS = {
     'psf-nonnegative': {'quick': 60, 'thorough': 1500}, 'psf-shape': {'quick': 60, 'thorough': 1500},
     'psf-equals-dft': {'quick': 60, 'thorough': 1500}, 'psf-energy-conserved': {'quick': 60, 'thorough': 1500},
